@@ -281,8 +281,70 @@ class Cplex(Suite):
         acc["no_tie_rows_present"] = acc.get("no_tie_rows_present", 0) + int(any(len(t) == 1 and t[0][1].startswith("t_") for p in out["progs"] for t, _, _ in p["rows"]))
 
 
+class Reuse(Suite):
+    """ONE algorithm object answers a sequence of calls (the way a benchmark loop uses the library): the same dataset under
+    schemes that agree on their first three penalties (unifying / induced / pseudo-distance with the same p, multiples), an
+    equal dataset built anew, another dataset - each answer must be a global optimum for ITS dataset and scheme"""
+    name = "reuse"
+    imports = ["Scheme", "Rank", "Partition", "Judge.JOpt"]
+    judge = "judge_exact_seq"
+    show = "show_exact_seq"
+    ctype = "list c05"
+
+    def gen(self, tier, rng):
+        cases = []
+        for _ in range(25 if tier == "quick" else 300):
+            p = rng.choice([1.0, 1.0, 0.5, 0.75])
+            fam = [[[0.0, 1.0, p, 0.0, 1.0, p], [p, p, 0.0, p, p, 0.0]],        # unifying
+                   [[0.0, 1.0, p, 0.0, 0.0, 0.0], [p, p, 0.0, 0.0, 0.0, 0.0]],  # induced measure
+                   [[0.0, 1.0, p, 0.0, 1.0, 0.0], [p, p, 0.0, p, p, 0.0]]]      # pseudo-distance
+            rng.shuffle(fam)
+            k = rng.choice([1, 2, 0.5])
+            fam.append([[x * k for x in fam[0][0]], [x * k for x in fam[0][1]]])
+            D1 = rng.choice([gen.random_dataset(rng, 5, 4), layered_dataset(rng, 5, 4), sparse_component_dataset(rng, 5)])
+            D2 = gen.random_dataset(rng, 5, 4)
+            calls = [{"D": D1, "s": s} for s in fam] + [{"D": D2, "s": fam[0]}, {"D": [[list(b) for b in r] for r in D1], "s": fam[1]}]
+            cases.append({"kind": rng.choice([0, 1, 2]), "one": True, "calls": calls})
+        return cases
+
+    def run(self, case):
+        mkalg = CONFIGS[case["kind"]][2]
+        alg = mkalg()
+        outs = []
+        for c in case["calls"]:
+            ds, sc = mk(c["D"], c["s"])
+            o = {"D": gen.observe(ds), "U": gen.id_order(ds)}
+            try:
+                cons = alg.compute_consensus_rankings(ds, sc, case["one"])
+                v = cons.kemeny_score
+                o["run"] = {"cons": [lst(r) for r in cons.consensus_rankings], "flag": bool(cons.necessarily_optimal),
+                            "score": None if v is None else to_units_tol(float(v))}
+            except Exception as e:
+                o["run"] = {"err": type(e).__name__ + ": " + str(e)[:80]}
+            outs.append(o)
+        return {"calls": outs}
+
+    def term(self, case, out):
+        items = []
+        for c, o in zip(case["calls"], out["calls"]):
+            r = o["run"]
+            if "err" in r:
+                run = f"(mkEX {nat(case['kind'])} [] false None)"
+            else:
+                run = f"(mkEX {nat(case['kind'])} {clist([ranking_term(x) for x in r['cons']])} {cbool(r['flag'])} {copt(r['score'], z)})"
+            items.append(f"(mkC05 {scheme_term(c['s'])} {dataset_term(o['D'])} {natlist(o['U'])} [{run}])")
+        return clist(items)
+
+    def nontrivial(self, case, out):
+        return any(len(o["U"]) >= 3 for o in out["calls"])
+
+    def stats(self, case, out, acc):
+        acc["calls_on_one_object"] = acc.get("calls_on_one_object", 0) + len(out["calls"])
+        acc["exceptions"] = acc.get("exceptions", 0) + sum(1 for o in out["calls"] if "err" in o["run"])
+
+
 if __name__ == "__main__":
-    main("C05", [Exact(), Ilp(), Cplex()], gen_targets=["step6"],
+    main("C05", [Exact(), Ilp(), Cplex(), Reuse()], gen_targets=["step6"],
          level_note="see MANIFEST",
          rule="witnesses of F1 / F2 / F6; 3-ranking datasets over {0,1,2}; layered and random datasets up to 6 elements, schemes biased to "
               "B5 != T5; four configurations per dataset (selector optimize on/off, free-solver model one / all); the optimum is recomputed "
